@@ -47,6 +47,7 @@ func runC15(c *Config, r *Report) {
 	c15R13(ic, r)
 	c15R14(ic, r)
 	c15R15(ic, r)
+	c15R16(ic, r)
 	c15R6(ic, r)
 	c15R7(ic, r)
 	c15R8(ic, r)
@@ -1613,4 +1614,110 @@ func c15R15(ic *IC, r *Report) {
 	})
 	r.Check(found != "", "R15.15", "getVarDependencies/declared-names-of-type-expressions-ignored", ic.pos(fi.Decl.Pos()), "names of field expressions are skipped ("+found+")",
 		"getVarDependencies looks up every identifier of an initialiser in the package scope, the names declared by a type expression included: var c5 = struct{ port int }{port: f()} depends on a later var port (initialised in the wrong order), and var a = struct{ b int }{...}; var b = struct{ a int }{...} is rejected as a variable definition loop")
+}
+
+func init() {
+	ruleText["R15.16"] = "the dependencies that pass through the bodies of the functions and methods an initialiser refers to are followed for every initialiser: in getVarDependencies each recursive descent of the walking closure is guarded only by conditions on the node and symbol at hand and on the set of bodies already visited - not by a variable of the collector computed beforehand from the shape of the initialiser (a function stored uncalled in a table is called later, through the variable)"
+}
+
+// c15R16: round-8 seed. "An initialiser which calls nothing executes no function body" made
+// the descent conditional on a flag computed by a pre-pass over the initialiser.
+func c15R16(ic *IC, r *Report) {
+	info := ic.Info
+	fi := ic.fn(r, "getVarDependencies")
+	if fi == nil {
+		return
+	}
+	params := map[types.Object]bool{}
+	for _, f := range fi.Decl.Type.Params.List {
+		for _, nm := range f.Names {
+			params[info.ObjectOf(nm)] = true
+		}
+	}
+	// the walking closure: a function literal assigned to a variable that it calls itself
+	var lit *ast.FuncLit
+	var self types.Object
+	ast.Inspect(fi.Decl.Body, func(q ast.Node) bool {
+		as, ok := q.(*ast.AssignStmt)
+		if !ok || len(as.Lhs) != 1 || len(as.Rhs) != 1 {
+			return true
+		}
+		fl, ok := as.Rhs[0].(*ast.FuncLit)
+		id := identOf(as.Lhs[0])
+		if !ok || id == nil {
+			return true
+		}
+		v := info.ObjectOf(id)
+		rec := false
+		ast.Inspect(fl.Body, func(z ast.Node) bool {
+			if c, ok := z.(*ast.CallExpr); ok {
+				if cid := identOf(c.Fun); cid != nil && info.ObjectOf(cid) == v {
+					rec = true
+				}
+			}
+			return true
+		})
+		if rec && lit == nil {
+			lit, self = fl, v
+		}
+		return true
+	})
+	if lit == nil {
+		r.Errorf("R15.16: no recursive walking closure found in getVarDependencies")
+		return
+	}
+	n := 0
+	ast.Inspect(lit.Body, func(q ast.Node) bool {
+		c, ok := q.(*ast.CallExpr)
+		if !ok {
+			return true
+		}
+		if cid := identOf(c.Fun); cid == nil || info.ObjectOf(cid) != self {
+			return true
+		}
+		n++
+		bad := ""
+		path := enclosingPath(lit.Body, c)
+		for i, p := range path {
+			var conds []ast.Expr
+			switch y := p.(type) {
+			case *ast.IfStmt:
+				// only when the call is in the body or the else branch (not in the condition itself)
+				if i+1 < len(path) && path[i+1] != ast.Node(y.Cond) {
+					conds = append(conds, y.Cond)
+				}
+			case *ast.CaseClause:
+				conds = append(conds, y.List...)
+			}
+			for _, e := range conds {
+				ast.Inspect(e, func(z ast.Node) bool {
+					id, ok := z.(*ast.Ident)
+					if !ok {
+						return true
+					}
+					v, ok := info.Uses[id].(*types.Var)
+					if !ok || v.IsField() || params[v] || v.Pkg() != ic.Pk.Types {
+						return true
+					}
+					if v.Pos() >= lit.Pos() && v.Pos() <= lit.End() {
+						return true // a local of the closure
+					}
+					if v.Pos() < fi.Decl.Pos() || v.Pos() > fi.Decl.End() {
+						return true // package level
+					}
+					if _, isMap := v.Type().Underlying().(*types.Map); isMap {
+						return true // the set of bodies already visited
+					}
+					bad = v.Name() + " (declared at " + ic.pos(v.Pos()) + ", tested at " + ic.pos(id.Pos()) + ")"
+					return true
+				})
+			}
+		}
+		r.Check(bad == "", "R15.16", fmt.Sprintf("getVarDependencies/descent#%d/whatever-the-shape-of-the-initialiser", n), ic.pos(c.Pos()), "the descent is guarded by the node, the symbol and the visited set only",
+			"in getVarDependencies the descent into a referenced body at "+ic.pos(c.Pos())+" depends on "+bad+", a variable of the collector computed outside the walk: for the initialisers that make it false the functions and methods they mention are not followed, so `var table = map[string]func() int{\"k\": f}` (f reads g) no longer depends on g and `var x = table[\"k\"]()` is initialised before g")
+		return true
+	})
+	if n < 2 {
+		r.Errorf("R15.16: only %d recursive descents found in the walking closure of getVarDependencies (function and method bodies, function literals expected)", n)
+	}
 }
